@@ -158,6 +158,41 @@ def run(F, chk):
                               {"read": ["%s[%s]" % x[:2] for x in rsh], "write": ["%s[%s]" % x[:2] for x in wsh]})
     chk.floor(R7, 6)
 
+    # ------------------------------------------------------------------ R1.8 no layout decision on unresolved string text
+    R8 = chk.rule("R1.8", "no stream function of a block class reads the resolved text of a NiStringRef (get()/length()/comparison): "
+                          "while a file is being read the text is not resolved yet (Load fills the string refs after the last block), "
+                          "so anything decided on it is decided differently by the reader and the writer")
+    # the protocol fact the rule rests on: Load calls FillStringRefs after the block loop
+    load_fn = [f for f in F.fn_named("nifly::NifFile::Load") if "istream" in f["id"]]
+    fill_ids = {f["id"] for f in F.fns.values() if f.get("cls") == "nifly::NiHeader" and f["short"] == "FillStringRefs"}
+    fills = [n for f in load_fn for n in walk(f["body"]) if n["k"] == "Call" and n.get("fid") and
+             (n["fid"] in fill_ids or (F.reachable([n["fid"]]) & fill_ids))]
+    in_loop = [n for f in load_fn for lp in walk(f["body"]) if lp["k"] in ("For", "While", "RangeFor") for n in walk(lp)
+               if any(n is x for x in fills)]
+    ok = bool(fills) and not in_loop
+    chk.instance(R8, ok=ok, sample={"Load_resolves_strings_after_all_blocks": ok})
+    if not ok:
+        chk.violation("R1.8", "C01/R1.8:Load:FillStringRefs", where(load_fn[0]) if load_fn else "?",
+                      "Load no longer resolves the string references once, after all blocks were read")
+    nsf = 0
+    for fn in sorted(F.fns.values(), key=lambda f: f["id"]):
+        if fn.get("tmpl") == "pattern" or not fn.get("body") or fn.get("cls") in ("nifly::NiStringRef", "nifly::NiString", None):
+            continue
+        if fn["short"] not in ("Sync", "Get", "Put") or not any(
+                any(t in (p_.get("ct") or p_.get("t") or "") for t in ("NiStreamReversible", "NiIStream", "NiOStream")) for p_ in fn.get("params", [])):
+            continue
+        nsf += 1
+        bad = [x for x in walk(fn["body"]) if x["k"] in ("Call", "OpCall") and x.get("cls") == "nifly::NiStringRef" and
+               (x.get("short") in ("get", "length") or x.get("op") in ("==", "!="))]
+        chk.instance(R8, ok=not bad, sample={"fn": fn["name"]}, nontrivial=False)
+        for x in bad[:1]:
+            chk.violation("R1.8", "C01/R1.8:%s" % fn["name"], where(fn, x),
+                          "%s consults the text of a string reference (`%s`) while transferring the block: the reader sees an empty "
+                          "string there (references are resolved after the last block), the writer the real one — the two transfer "
+                          "different fields" % (fn["name"], show(x)[:60]))
+    chk.extra["stream_functions_checked_for_string_text"] = nsf
+    chk.floor(R8, 300)
+
     # ------------------------------------------------------------------ R1.4
     total = 0
     for fn in sorted(F.fns.values(), key=lambda f: f["id"]):
